@@ -311,6 +311,10 @@ def _exc_name(exc, raised):
     if n == "TraitError":
         # raised by something other than the validator (e.g. a length constraint of a subclass)
         raise Skip("traiterror-not-from-validator")
+    if n not in ("IndexError", "ValueError", "KeyError"):
+        # not an exception of the container operation itself: raised by a notifier (documented as "expected not to
+        # raise") or by a test double - e.g. an assertion inside a test's listener - after the operation took effect
+        raise Skip("foreign-exception")
     return n
 
 
